@@ -1,6 +1,7 @@
 import CookModel.Analysis.Collector
 import CookModel.Lemmas.Blocks
 import CookModel.Lemmas.MetaAgree
+import CookModel.Lemmas.CollectorAgree
 /-
   C14  Metadata-only parsing agrees with full parsing.
 
@@ -155,6 +156,37 @@ theorem C14_metadata_events_agree (cs : CharSpec) (ext : Ext) (input : List Char
     (pullEvents (α := α) cs ext input).1.toList.filter Ev.isKey =
     (pullMetaEvents (α := α) cs ext input).1.toList.filter Ev.isKey :=
   metadata_events_agree cs ext input h
+
+/-- `C14_agree` for inputs WITHOUT front matter, for every environment (character table, extension
+    set, converter, std-metadata checker): whenever both `parse` and `parse_metadata` have output,
+    the metadata parts of the two results are equal — the `>>` metadata map (same keys, same values,
+    same insertion order), the locations of the standard keys, the parsed servings, the spans of
+    the deprecated old-style entries and the (absent) front matter.
+    Missing for the full clause (hence `_partial`): inputs WITH front matter (there the
+    metadata-only parser stops after the front-matter event while the full parser still processes
+    `>> [config]: …` lines when the MODES extension is on; what is proved for that case is
+    `C14_front_matter_same_event`). -/
+theorem C14_agree_partial (env : Env) (input : Str) (h : parseFrontmatter env.cs input = none)
+    (r1 r2 : Col α) (h1 : (parseRecipe (α := α) env input).output = some r1)
+    (h2 : (parseMetadata (α := α) env input).output = some r2) :
+    r1.metaMap = r2.metaMap ∧ r1.metaLocs = r2.metaLocs ∧ r1.servings = r2.servings ∧
+    r1.oldStyleUsed = r2.oldStyleUsed ∧ r1.frontMatter = r2.frontMatter ∧ r1.oldStyle = r2.oldStyle := by
+  have e := analysis_agree env input h r1 r2 h1 h2
+  exact ⟨congrArg MS.metaMap e, congrArg MS.metaLocs e, congrArg MS.servings e,
+    congrArg MS.oldStyleUsed e, congrArg MS.frontMatter e, congrArg MS.oldStyle e⟩
+
+/-- the pieces of that proof, as statements about the collector: (1) an event that is neither
+    `Metadata` nor front matter leaves the metadata part of the collector state untouched … -/
+theorem C14_other_events_keep_metadata (env : Env) (input : Str) (ev : Ev α) (h : ev.isKey = false)
+    (s : Col α) : ((processEvent env input ev s).2).ms = s.ms :=
+  (pf_processEvent s.ms env input ev h).run s rfl
+
+/-- … and (2) what a `Metadata` event does to the metadata part depends only on that part (not on
+    the steps, ingredients, modes or diagnostics collected so far). -/
+theorem C14_metadata_event_depends_on_metadata_only (env : Env) (k v : Text) (s s' : Col α)
+    (h : s.ms = s'.ms) :
+    ((processEvent (α := α) env [] (.metadata k v) s).2).ms = ((processEvent (α := α) env [] (.metadata k v) s').2).ms :=
+  ((sm_metadataA env k v).run s s' h).2
 
 /-! the corner cases, on concrete streams (both sides computed):
     leading whitespace before `>>` (not metadata in either scanner); a `>>` line right after a
